@@ -94,7 +94,7 @@ class StoreRecorder(object):
         how = o.get('how', 'list')
         if how == 'iter':
             return iter(keys)
-        if how == 'own' and sorted(keys) == sorted(dict.keys(c)):
+        if how == 'own' and keys == list(dict.keys(c)):       # (same keys in the same order: the results are compared position by position)
             return c.keys()
         return keys
 
